@@ -4,8 +4,9 @@ drag, end_drag, zoom, resize}` and `Canvas3::{new, interact, begin_drag, screen_
 C18 is stated "for any sequence of canvas interactions".  The per-step clauses (frame conditions, pitch range, changed flag of
 `View2` / `View3`) are decided for all f32 by the Kani harnesses; what makes them a statement about SEQUENCES is the state machine of the
 canvas, and that is a per-call contract, proved here for every canvas state (hence every history):
-  * `interact` computes exactly: the image size stored; the drag bookkeeping (a drag in progress keeps the handle it was started with -
-    `begin_drag` is idempotent - a cursor that is not dragging, or no cursor, ends the drag; a new drag takes its handle from the CURRENT view
+  * `interact` computes exactly: the image size stored; the drag bookkeeping (a drag in progress keeps working with its handle -
+    `begin_drag` is idempotent - and after the zoom of the step a pan is re-based on the zoomed view, keeping the grabbed point (repair of K11: the
+    handle holds the matrix of the view it was taken from); a cursor that is not dragging, or no cursor, ends the drag; a new drag takes its handle from the CURRENT view
     at the CURRENT cursor position, in the requested mode); the view = the handle's translate / rotate of the old view to the cursor position,
     then the zoom by exp2(scroll / 100) about the cursor position (or without a position when there is no cursor); so every intermediate
     view of a sequence is a composition of the View operations the Kani harnesses cover, with the handle of the drag's FIRST step;
@@ -55,6 +56,8 @@ pub proof fn ax_vb_refl(a: View2, b: View3) ensures vb_eq2(a, a), vb_eq3(b, b) {
 pub uninterp spec fn bt2(v: View2, p: Point2<f32>) -> TranslateHandle<2>;
 pub uninterp spec fn tr2(v: View2, h: TranslateHandle<2>, p: Point2<f32>) -> (View2, bool);
 pub uninterp spec fn zm2(v: View2, a: f32, p: Option<Point2<f32>>) -> (View2, bool);
+pub uninterp spec fn rb2(v: View2, h: TranslateHandle<2>) -> TranslateHandle<2>;
+pub uninterp spec fn rb3(v: View3, h: TranslateHandle<3>) -> TranslateHandle<3>;
 pub uninterp spec fn bt3(v: View3, p: Point3<f32>) -> TranslateHandle<3>;
 pub uninterp spec fn br3(v: View3, p: Point3<f32>) -> RotateHandle;
 pub uninterp spec fn tr3(v: View3, h: TranslateHandle<3>, p: Point3<f32>) -> (View3, bool);
@@ -63,6 +66,7 @@ pub uninterp spec fn zm3(v: View3, a: f32, p: Option<Point3<f32>>) -> (View3, bo
 impl View2 {
     #[verifier::external_body] pub fn default() -> (r: Self) { unimplemented!() }
     #[verifier::external_body] pub fn begin_translate(&self, pos: Point2<f32>) -> (r: TranslateHandle<2>) ensures r == bt2(*self, pos) { unimplemented!() }
+    #[verifier::external_body] pub fn rebase_translate(&self, h: &mut TranslateHandle<2>) ensures *final(h) == rb2(*self, *old(h)) { unimplemented!() }
     #[verifier::external_body] pub fn translate(&mut self, h: &TranslateHandle<2>, pos: Point2<f32>) -> (r: bool) ensures (*final(self), r) == tr2(*old(self), *h, pos) { unimplemented!() }
     #[verifier::external_body] pub fn zoom(&mut self, amount: f32, pos: Option<Point2<f32>>) -> (r: bool) ensures (*final(self), r) == zm2(*old(self), amount, pos) { unimplemented!() }
     #[verifier::external_body] pub fn bits_differ(&self, other: &Self) -> (r: bool) ensures r == !vb_eq2(*self, *other) { unimplemented!() }
@@ -71,6 +75,7 @@ impl View3 {
     #[verifier::external_body] pub fn default() -> (r: Self) { unimplemented!() }
     #[verifier::external_body] pub fn begin_translate(&self, pos: Point3<f32>) -> (r: TranslateHandle<3>) ensures r == bt3(*self, pos) { unimplemented!() }
     #[verifier::external_body] pub fn begin_rotate(&self, pos: Point3<f32>) -> (r: RotateHandle) ensures r == br3(*self, pos) { unimplemented!() }
+    #[verifier::external_body] pub fn rebase_translate(&self, h: &mut TranslateHandle<3>) ensures *final(h) == rb3(*self, *old(h)) { unimplemented!() }
     #[verifier::external_body] pub fn translate(&mut self, h: &TranslateHandle<3>, pos: Point3<f32>) -> (r: bool) ensures (*final(self), r) == tr3(*old(self), *h, pos) { unimplemented!() }
     #[verifier::external_body] pub fn rotate(&mut self, h: &RotateHandle, pos: Point3<f32>) -> (r: bool) ensures (*final(self), r) == ro3(*old(self), *h, pos) { unimplemented!() }
     #[verifier::external_body] pub fn zoom(&mut self, amount: f32, pos: Option<Point3<f32>>) -> (r: bool) ensures (*final(self), r) == zm3(*old(self), amount, pos) { unimplemented!() }
@@ -99,8 +104,8 @@ pub fn zoom_factor_(amount: f32) -> (r: f32) ensures r == zoom_factor(amount) { 
 // ---------- what one call of interact computes
 pub open spec fn w2(s: ImageSize, p: Point2<i32>) -> Point2<f32> { tp2(s, p) }
 pub open spec fn w3(s: VoxelSize, p: Point2<i32>) -> Point3<f32> { tp3(s, Point3 { x: p.x, y: p.y, z: 0i32 }) }
-/// Canvas2: the handle after the step, the view after the drag part
-pub open spec fn step2_handle(c: Canvas2, s: ImageSize, cs: Option<CursorState<bool>>) -> Option<TranslateHandle<2>> {
+/// Canvas2: the handle the drag part works with, the view after the drag part, the view after the zoom, the handle kept for the next step
+pub open spec fn step2_handle0(c: Canvas2, s: ImageSize, cs: Option<CursorState<bool>>) -> Option<TranslateHandle<2>> {
     match cs {
         Some(st) => if st.drag { if c.drag_start is Some { c.drag_start } else { Some(bt2(c.view, w2(s, st.screen_pos))) } } else { None },
         None => None,
@@ -108,14 +113,21 @@ pub open spec fn step2_handle(c: Canvas2, s: ImageSize, cs: Option<CursorState<b
 }
 pub open spec fn step2_dragged(c: Canvas2, s: ImageSize, cs: Option<CursorState<bool>>) -> View2 {
     match cs {
-        Some(st) => if st.drag { tr2(c.view, step2_handle(c, s, cs)->Some_0, w2(s, st.screen_pos)).0 } else { c.view },
+        Some(st) => if st.drag { tr2(c.view, step2_handle0(c, s, cs)->Some_0, w2(s, st.screen_pos)).0 } else { c.view },
         None => c.view,
     }
 }
 pub open spec fn step2_view(c: Canvas2, s: ImageSize, cs: Option<CursorState<bool>>, scroll: f32) -> View2 {
     zm2(step2_dragged(c, s, cs), zoom_factor(scroll), match cs { Some(st) => Some(w2(s, st.screen_pos)), None => None }).0
 }
-pub open spec fn step3_handle(c: Canvas3, s: VoxelSize, cs: Option<CursorState<Option<DragMode>>>) -> Option<Drag3> {
+/// a drag in progress is re-based on the zoomed view, keeping the grabbed point (repair of K11)
+pub open spec fn step2_handle(c: Canvas2, s: ImageSize, cs: Option<CursorState<bool>>, scroll: f32) -> Option<TranslateHandle<2>> {
+    match step2_handle0(c, s, cs) {
+        Some(h) => Some(rb2(step2_view(c, s, cs, scroll), h)),
+        None => None,
+    }
+}
+pub open spec fn step3_handle0(c: Canvas3, s: VoxelSize, cs: Option<CursorState<Option<DragMode>>>) -> Option<Drag3> {
     match cs {
         Some(st) => match st.drag {
             Some(mode) => if c.drag_start is Some { c.drag_start } else {
@@ -128,7 +140,7 @@ pub open spec fn step3_handle(c: Canvas3, s: VoxelSize, cs: Option<CursorState<O
 pub open spec fn step3_dragged(c: Canvas3, s: VoxelSize, cs: Option<CursorState<Option<DragMode>>>) -> View3 {
     match cs {
         Some(st) => match st.drag {
-            Some(mode) => match step3_handle(c, s, cs)->Some_0 {
+            Some(mode) => match step3_handle0(c, s, cs)->Some_0 {
                 Drag3::Pan(h) => tr3(c.view, h, w3(s, st.screen_pos)).0,
                 Drag3::Rotate(h) => ro3(c.view, h, w3(s, st.screen_pos)).0,
             },
@@ -139,6 +151,13 @@ pub open spec fn step3_dragged(c: Canvas3, s: VoxelSize, cs: Option<CursorState<
 }
 pub open spec fn step3_view(c: Canvas3, s: VoxelSize, cs: Option<CursorState<Option<DragMode>>>, scroll: f32) -> View3 {
     zm3(step3_dragged(c, s, cs), zoom_factor(scroll), match cs { Some(st) => Some(w3(s, st.screen_pos)), None => None }).0
+}
+/// a pan in progress is re-based on the zoomed view, keeping the grabbed point; a rotation keeps its handle (it does not depend on the scale)
+pub open spec fn step3_handle(c: Canvas3, s: VoxelSize, cs: Option<CursorState<Option<DragMode>>>, scroll: f32) -> Option<Drag3> {
+    match step3_handle0(c, s, cs) {
+        Some(Drag3::Pan(h)) => Some(Drag3::Pan(rb3(step3_view(c, s, cs, scroll), h))),
+        o => o,
+    }
 }
 '''
 
@@ -207,15 +226,15 @@ def build(repo, trace):
     inj.spec('Canvas2::end_drag', None, '\n        ensures final(self).drag_start is None, final(self).view == old(self).view, final(self).image_size == old(self).image_size\n')
     inj.spec('Canvas2::begin_drag', None, '\n        ensures final(self).view == old(self).view, final(self).image_size == old(self).image_size,\n            // idempotent: a drag in progress keeps its handle\n            final(self).drag_start == (if old(self).drag_start is Some { old(self).drag_start } else { Some(bt2(old(self).view, w2(old(self).image_size, pos_screen))) })\n')
     inj.spec('Canvas2::drag', 'r: bool', '\n        ensures final(self).drag_start == old(self).drag_start, final(self).image_size == old(self).image_size,\n            old(self).drag_start is None ==> (!r && final(self).view == old(self).view),\n            old(self).drag_start is Some ==> (final(self).view, r) == tr2(old(self).view, old(self).drag_start->Some_0, w2(old(self).image_size, pos_screen))\n')
-    inj.spec('Canvas2::zoom', 'r: bool', '\n        ensures final(self).drag_start == old(self).drag_start, final(self).image_size == old(self).image_size,\n            (final(self).view, r) == zm2(old(self).view, zoom_factor(amount), match pos_screen { Some(p) => Some(w2(old(self).image_size, p)), None => None })\n')
-    inj.spec('Canvas2::interact', 'r: bool', '\n        ensures final(self).image_size == image_size,\n            final(self).drag_start == step2_handle(*old(self), image_size, cursor_state),\n            final(self).view == step2_view(*old(self), image_size, cursor_state, scroll),\n            // the flag is false whenever the view is bit-identical to the view before the call\n            r ==> !vb_eq2(final(self).view, old(self).view)\n')
+    inj.spec('Canvas2::zoom', 'r: bool', '\n        ensures final(self).image_size == old(self).image_size,\n            // a drag in progress is re-based on the zoomed view\n            final(self).drag_start == (match old(self).drag_start { Some(h) => Some(rb2(final(self).view, h)), None => None }),\n            (final(self).view, r) == zm2(old(self).view, zoom_factor(amount), match pos_screen { Some(p) => Some(w2(old(self).image_size, p)), None => None })\n')
+    inj.spec('Canvas2::interact', 'r: bool', '\n        ensures final(self).image_size == image_size,\n            final(self).drag_start == step2_handle(*old(self), image_size, cursor_state, scroll),\n            final(self).view == step2_view(*old(self), image_size, cursor_state, scroll),\n            // the flag is false whenever the view is bit-identical to the view before the call\n            r ==> !vb_eq2(final(self).view, old(self).view)\n')
     inj.spec('Canvas3::new', 'r: Self', '\n        ensures r.image_size == image_size, r.drag_start is None\n')
     inj.spec('Canvas3::end_drag', None, '\n        ensures final(self).drag_start is None, final(self).view == old(self).view, final(self).image_size == old(self).image_size\n')
     inj.spec('Canvas3::screen_to_world', 'r: Point3<f32>', '\n        ensures r == w3(self.image_size, pos_screen)\n')
     inj.spec('Canvas3::begin_drag', None, '\n        ensures final(self).view == old(self).view, final(self).image_size == old(self).image_size,\n            final(self).drag_start == (if old(self).drag_start is Some { old(self).drag_start } else {\n                Some(match drag_mode { DragMode::Pan => Drag3::Pan(bt3(old(self).view, w3(old(self).image_size, pos_screen))), DragMode::Rotate => Drag3::Rotate(br3(old(self).view, w3(old(self).image_size, pos_screen))) }) })\n')
     inj.spec('Canvas3::drag', 'r: bool', '\n        ensures final(self).drag_start == old(self).drag_start, final(self).image_size == old(self).image_size,\n            old(self).drag_start is None ==> (!r && final(self).view == old(self).view),\n            old(self).drag_start is Some ==> (final(self).view, r) == (match old(self).drag_start->Some_0 {\n                Drag3::Pan(h) => tr3(old(self).view, h, w3(old(self).image_size, pos_screen)),\n                Drag3::Rotate(h) => ro3(old(self).view, h, w3(old(self).image_size, pos_screen)) })\n')
-    inj.spec('Canvas3::zoom', 'r: bool', '\n        ensures final(self).drag_start == old(self).drag_start, final(self).image_size == old(self).image_size,\n            (final(self).view, r) == zm3(old(self).view, zoom_factor(amount), match pos_screen { Some(p) => Some(w3(old(self).image_size, p)), None => None })\n')
-    inj.spec('Canvas3::interact', 'r: bool', '\n        ensures final(self).image_size == image_size,\n            final(self).drag_start == step3_handle(*old(self), image_size, cursor_state),\n            final(self).view == step3_view(*old(self), image_size, cursor_state, scroll),\n            r ==> !vb_eq3(final(self).view, old(self).view)\n')
+    inj.spec('Canvas3::zoom', 'r: bool', '\n        ensures final(self).image_size == old(self).image_size,\n            final(self).drag_start == (match old(self).drag_start { Some(Drag3::Pan(h)) => Some(Drag3::Pan(rb3(final(self).view, h))), o => o }),\n            (final(self).view, r) == zm3(old(self).view, zoom_factor(amount), match pos_screen { Some(p) => Some(w3(old(self).image_size, p)), None => None })\n')
+    inj.spec('Canvas3::interact', 'r: bool', '\n        ensures final(self).image_size == image_size,\n            final(self).drag_start == step3_handle(*old(self), image_size, cursor_state, scroll),\n            final(self).view == step3_view(*old(self), image_size, cursor_state, scroll),\n            r ==> !vb_eq3(final(self).view, old(self).view)\n')
     for q_ in ('Canvas2::interact', 'Canvas3::interact', 'Canvas2::zoom', 'Canvas3::zoom', 'Canvas2::drag', 'Canvas3::drag'):
         inj.proof(q_, '$START', '        proof { ax_float_total(); }')
     obls = []
